@@ -102,7 +102,14 @@ Proof.
     + rewrite Heqb. eexists; split; reflexivity.
     + rewrite orb_false_r in Heqb. apply andb_prop in Heqb as [-> _].
       rewrite orb_true_r. eexists; split; reflexivity.
-  - rewrite andb_false_r, orb_false_r in Heqb. rewrite Heqb. eexists; split; reflexivity.
+  - destruct (prof =? 2).
+    + rewrite Heqb. eexists; split; reflexivity.
+    + destruct (prof =? 3).
+      * destruct ca.
+        -- rewrite Heqb. eexists; split; reflexivity.
+        -- rewrite orb_false_r in Heqb. apply andb_prop in Heqb as [-> _].
+           rewrite orb_true_r. eexists; split; reflexivity.
+      * rewrite andb_false_r, orb_false_r in Heqb. rewrite Heqb. eexists; split; reflexivity.
 Qed.
 
 (* ---------------------------------------------------------------- completeness *)
